@@ -24,3 +24,14 @@ def build(reg):
                  "krylov_exp and the operator action H*x / L@x are uninterpreted here (C07, C06)",
                  "the step loop and the per-step dt are C14's obligations"],
     )
+
+
+# negative controls (thorough tier): (name, file, old text, new text)
+CONTROLS = [('Lindbladian exponentiated as Hermitian',
+  'emu_sv/time_evolution.py',
+  'is_hermitian=False',
+  'is_hermitian=True'),
+ ('jump operators not passed on',
+  'emu_sv/time_evolution.py',
+  '            pulser_lindblads=pulser_lindblads,\n            interaction_matrix=full_interaction_matrix,',
+  '            pulser_lindblads=[],\n            interaction_matrix=full_interaction_matrix,')]
